@@ -54,7 +54,7 @@ func oracleC13(l *harness.Live) (c struct {
 	}
 	want, err := refNodes(l)
 	if err != nil {
-		return c, harness.Failf("reference evaluates", err.Error(), "generator left the reference fragment")
+		return c, refFailure(err)
 	}
 	c.want = want.IDs()
 	sel := func(e xast.Expr, from *xdoc.Node) ([]int, *harness.Failure) {
